@@ -2,6 +2,7 @@ import P2PVerif.Model.Checked
 import P2PVerif.Model.Reasm
 import P2PVerif.Lemmas.Checked
 import P2PVerif.Props.C10
+import P2PVerif.Lemmas.SrcKe
 /-! # C08 — no bytes from the network can crash a node
 Property theorems only. `Model/Checked.lean` re-writes the packet-facing entry points with Go's checked slice
 and index expressions (`Except Fault`); the theorems say that for EVERY input — and, for the stateful
@@ -128,5 +129,20 @@ theorem src_collector_no_fault (pc ts : Nat) (ops : List (Nat × Go.Bytes)) :
     ∃ c, (mbapp.newCollector (pc : Int) (ts : Int) >>= fun c0 => C10.srcAddParts c0 ops) = .ok c :=
   let ⟨c, h, _⟩ := C10.src_collector_refines pc ts ops
   ⟨c, h⟩
+
+/-- ⊢ (source) the message classifiers a channel routes every datagram by (`IsInitHello`, `IsRespHello`, `IsHello`,
+    `IsPostHandshake`) and mbapp's `extractErrorCode` return on every input; a datagram is never both a hello and
+    post-handshake data. -/
+theorem src_classifiers_total (x : Go.Bytes) (n : Int) :
+    (∃ b, p2pke.IsInitHello x = .ok b) ∧ (∃ b, p2pke.IsRespHello x = .ok b) ∧ (∃ b, p2pke.IsHello x = .ok b) ∧
+    (∃ b, p2pke.IsPostHandshake x = .ok b) ∧ (∃ r, mbapp.extractErrorCode n = .ok r) ∧
+    ¬ (p2pke.IsHello x = .ok true ∧ p2pke.IsPostHandshake x = .ok true) := by
+  refine ⟨⟨_, (SrcKe.classify_eq x).1⟩, ⟨_, (SrcKe.classify_eq x).2.1⟩, ⟨_, SrcKe.isHello_eq x⟩,
+    ⟨_, (SrcKe.classify_eq x).2.2⟩, ?_, ?_⟩
+  · unfold mbapp.extractErrorCode; split <;> exact ⟨_, rfl⟩
+  · rw [SrcKe.isHello_eq, (SrcKe.classify_eq x).2.2]
+    intro ⟨h1, h2⟩
+    simp only [Except.ok.injEq, decide_eq_true_eq] at h1 h2
+    omega
 
 end P2PVerif.C08
